@@ -1,6 +1,7 @@
 from typing import Any
 from abc import abstractmethod, ABCMeta
 import asyncio
+import concurrent.futures
 import logging
 import threading
 
@@ -100,8 +101,19 @@ class BaseRunner(metaclass=ABCMeta):
         if self._stopped.is_set():
             return
         # the loop exists independently of all runners, we can use it to shut down
-        closed = asyncio.run_coroutine_threadsafe(self.aclose(), self.asyncio_loop)
-        closed.result()
+        closing = self.aclose()
+        try:
+            closed = asyncio.run_coroutine_threadsafe(closing, self.asyncio_loop)
+        except RuntimeError:
+            # the event loop has been closed in the meantime: nothing left to stop
+            closing.close()
+            return
+        try:
+            closed.result()
+        except concurrent.futures.CancelledError:
+            # the event loop is going down on its own (failure or interrupt)
+            # and cancelled our request along with everything else: already stopping
+            pass
 
 
 class OrphanedReturn(Exception):
